@@ -553,6 +553,15 @@ func (v *fnVC) trCall(x *CallE, env *Env) (T, types.Type) {
 		t, ty := v.tr(x.Args[0], env)
 		env.inOld = saved
 		return t, ty
+	case "entry": // entry(p): value of parameter p at function entry
+		if id, ok := x.Args[0].(*Ident); ok {
+			for _, p := range v.fn.Params {
+				if p.Name() == id.Name {
+					return v.vals[p], p.Type()
+				}
+			}
+		}
+		panic("entry() needs a parameter name")
 	case "len":
 		a, ty := v.tr(x.Args[0], env)
 		switch u := ty.Underlying().(type) {
